@@ -8,7 +8,7 @@ NOT_APPLICABLE = {}
 HOOKS = {"guard": "verif",
          "enable": "go build -tags verif (the harness module replaces github.com/textwire/textwire/v2 with /repo)",
          "baseline_off_cmd": "cd /repo && GOFLAGS=-mod=mod go test -vet=off -count=1 ./...",
-         "source_commits": ["3b9ca79"], "add_only": True}
+         "source_commits": ["3b9ca79", "e6a31ab"], "add_only": True}
 NOTES = ("All checks: bin/check <id> quick|thorough; exit 0 held / 1 violation / 2 infrastructure. Known findings and "
          "fixed defects: known_findings.json. Design: DESIGN.md.")
 ENGINES = [
@@ -46,10 +46,10 @@ CLAIMED = {
             "text": "TLC enumerates every pair (thorough: every triple in all five shapes) of the 11 binary operators, unary/postfix/ternary/index/member forms mixed with each operator, assignment right-hand sides, and the faults C01 lists; it checks on each tree that the specification's Pratt parser with the C01 table recovers the tree from minimal, full and redundant parenthesisations (RoundTrip), evaluates it with the typed semantics of spec/TwValues.tla, and the harness requires EvaluateString to produce exactly that value (or an error where C01 demands one) in every layout."},
     "C02": {"engine": "tla-eval", "technique": T_REPLAY,
             "text": "TLC runs every @if chain of the bounded families on the small-step evaluator model (first truthy branch only, later conditions unevaluated, truthiness table shared with ?:, @breakIf, @continueIf) and the harness requires EvaluateString to produce the model's output, or an error exactly when a raising condition precedes the first truthy one."},
-    "C03": {"engine": "tla-eval", "technique": T_REPLAY,
-            "text": "TLC runs every loop program of the bounded families (each/for, jumps at every body position and under nested @if, nesting, @else bodies, non-array headers) on the evaluator model, checking LoopMeta / ScopeBalance / OutMonotone in every state, and the harness requires the same output from EvaluateString."},
-    "C04": {"engine": "tla-eval", "technique": T_REPLAY,
-            "text": "TLC runs assignment/read sequences placed around and inside every block skeleton with every data map of the family, checking TypeStable / LoopReserved / ScopeBalance in every state; reads print, so the visible environment is observable and the harness requires the model's output or error from EvaluateString."},
+    "C03": {"engine": "tla-eval", "technique": T_REPLAY + "; scope-machine traces recorded from the real evaluator validated against spec/Trace_Env.tla",
+            "text": "TLC runs every loop program of the bounded families (each/for, jumps at every body position and under nested @if, nesting, @else bodies, non-array headers) on the evaluator model, checking LoopMeta / ScopeBalance / OutMonotone in every state, and the harness requires the same output from EvaluateString (and from NewTemplate + String). Recorded SetLoopVar events are validated against spec/Trace_Env.tla: index / iter / first of every pass must agree with each other and no pass may follow the one marked last."},
+    "C04": {"engine": "tla-eval", "technique": T_REPLAY + "; scope-machine traces recorded from the real evaluator validated against spec/Trace_Env.tla",
+            "text": "TLC runs assignment/read sequences placed around and inside every block skeleton with every data map of the family, checking TypeStable / LoopReserved / ScopeBalance in every state; reads print, so the visible environment is observable and the harness requires the model's output or error from EvaluateString (and from NewTemplate + String on the same source as a file). In the other direction every scope creation, Set, SetLoopVar and identifier lookup of the real evaluator is recorded through the verif hooks and TLC steps the trace against spec/Trace_Env.tla: a Set that stores although the name is visible with another type, or stores the name loop, is a violation."},
     "C06": {"engine": "tla-link", "technique": T_REPLAY,
             "text": "TLC links every page of the bounded families to its layout with spec/TwLink.tla (reserves filled by the page's inserts, block or expression form; undefined / duplicate insert, missing layout, layout-in-layout are errors) and runs the linked program on machine E; the harness writes the tree to disk, loads it with NewTemplate and requires the model's output from String(), or a load / render error that identifies the faulty file."},
     "C07": {"engine": "tla-link", "technique": T_REPLAY,
